@@ -5,7 +5,7 @@ states).  Every edge is compared with the reference (string reverse complement, 
 on every state the commutation law rc(r >> k) == rc(r) << k and the involution law are checked
 through the implementation itself.
 """
-from .. import refmodel as rm, snapshot
+from .. import gen, refmodel as rm, snapshot
 from ..engine import HarnessError
 from . import c13
 from moclo.record import CircularRecord
@@ -31,7 +31,7 @@ def bounds(tier):
 
 def goals(tier):
     return ["closure-reached", "rc-of-past-the-end-location", "dihedral-2n-states", "negative-start-location-rotated",
-            "commutation-checked", "involution-checked", "rc-with-non-default-flags", "operand-unchanged-checked", "spelling-aware-closure"]
+            "commutation-checked", "involution-checked", "rc-with-non-default-flags", "operand-unchanged-checked", "spelling-aware-closure", "edited-between-reverse-complements"]
 
 
 def units(tier):
@@ -199,6 +199,7 @@ def run_unit(unit, st, tier):
             break
         frontier = nxt
     st.states += len(seen)
+    edit_pass(st, init, n, s, nsl)
     st.goal("closure-reached")
     if len(den_seen) == 2 * n or n <= 2 or len(set(init["seq"])) < n:
         st.goal("dihedral-2n-states")
@@ -208,11 +209,49 @@ def run_unit(unit, st, tier):
     st.sample(dict(n=n, table_slice=[s, nsl], history=[[">>", 1]], op="rc", k=0, seq=init["seq"]))
 
 
+def edit_pass(st, init, n, s, nsl):
+    """A record that came out of a reverse complement is edited and reverse-complemented again -- and the record it was made from is
+    edited afterwards: only the present content of the operand counts."""
+    if n < 3:
+        return
+    for a in sorted({0, 1, n // 2}):
+        for who in ("result-edited", "source-edited"):
+            scn = dict(n=n, table_slice=[s, nsl], history=[[">>", a]], op="rc-edit", k=0, who=who)
+            try:
+                x = c13.build(init) >> a if a else c13.build(init)
+                mx = obs_of(x, n)
+                q = x.reverse_complement()
+                mq = obs_of(q, n)
+                if who == "result-edited":
+                    c13.edited(q)
+                    out = q.reverse_complement()
+                    exp = m_apply(mq, "rc", 0, n)
+                    late = gen.mk_feature([(0, min(2, n), 1)], type="misc_feature", fid="late9")
+                    import json as _json
+                    exp["feats"].append([late.type, late.id, _json.dumps(snapshot._plain(dict(late.qualifiers)), sort_keys=True),
+                                         c13.canon_den(rm.revcomp_denoted(rm.denoted([(0, min(2, n), 1)], n), n), n)])
+                    exp["feats"].sort(key=lambda f: (f[1], f[0]))
+                else:
+                    c13.edited(x)
+                    out = q.reverse_complement()
+                    exp = m_apply(mq, "rc", 0, n)
+            except Exception as e:
+                st.violation("edit", "raises-" + type(e).__name__, scn, "a record", "{}: {}".format(type(e).__name__, e))
+                continue
+            compare(st, "edit", scn, obs_of(out, n), exp)
+            st.scenario("rc-after-edit", None, nodes=0)
+            st.nontrivial += 1
+    st.goal("edited-between-reverse-complements")
+
+
 def replay(scn, sub, st):
     n = scn["n"]
     s, nsl = scn["table_slice"]
     if scn["op"] == "closure":
         run_unit((n, s, nsl), st, "quick")     # the whole search of this graph is the scenario
+        return
+    if scn["op"] == "rc-edit":
+        edit_pass(st, c13.initial(n, s, nsl), n, s, nsl)
         return
     init = c13.initial(n, s, nsl)
     rec = c13.build(init)
